@@ -192,4 +192,114 @@ CLASSES = [
           "cmd-clink: the consumer drops empty fields (`[^\\t]+`), so an empty description or an empty append-char shifts the remaining fields and a no-space candidate still gets clink's default blank"),
 ]
 
+
+# ---------------------------------------------------------------- alg engine (ops invoke / history / repeat)
+
+def _map_expr(e, f):
+    """bottom-up transformation of an ActionExpr tree"""
+    if not isinstance(e, dict):
+        return e
+    o = dict(e)
+    for k in ("e", "a", "bb"):
+        if k in o and o[k] is not None:
+            o[k] = _map_expr(o[k], f)
+    if o.get("es"):
+        o["es"] = [_map_expr(x, f) for x in o["es"]]
+    return f(o)
+
+
+def _any_expr(e, p):
+    found = []
+
+    def f(x):
+        if p(x):
+            found.append(1)
+        return x
+    _map_expr(e, f)
+    return bool(found)
+
+
+def _exprs_of(op, inp):
+    if op == "history":
+        return list(inp.get("table") or [])
+    return [inp.get("expr")]
+
+
+def _with_exprs(op, inp, f):
+    o = copy.deepcopy(inp)
+    if op == "history":
+        o["table"] = [_map_expr(x, f) for x in (o.get("table") or [])]
+    else:
+        o["expr"] = _map_expr(o.get("expr"), f)
+    return o
+
+
+class AlgClass(Class):
+    """applies / neutralise receive (op, input)"""
+
+    def __init__(self, cid, props, ops, pred, fix, what):
+        self.id, self.props, self.ops, self.what = cid, props, ops, what
+        self._pred, self._fix = pred, fix
+        self._op = None
+
+    def applies_op(self, op, inp):
+        return any(_any_expr(x, self._pred) for x in _exprs_of(op, inp))
+
+    def neutralise_op(self, op, inp):
+        return _with_exprs(op, inp, self._fix)
+
+
+def _makes_meta(y):
+    return (y.get("k") in ("message", "usage") or (y.get("k") == "shift" and y.get("n", 0) < 0)
+            or (y.get("k") == "multiPartsN" and y.get("n", 0) == 0))
+
+
+def _drop_meta_nodes(x):
+    if x.get("k") == "shift" and x.get("n", 0) < 0:
+        x = dict(x)
+        x["n"] = 0
+        return x
+    if x.get("k") == "multiPartsN" and x.get("n", 0) == 0:
+        x = dict(x)
+        x["n"] = 2
+        return x
+    if x.get("k") == "message":
+        return {"k": "plain", "ps": []}
+    if x.get("k") in ("usage",):
+        return x["e"]
+    return x
+
+
+def _fix_empty_divider(x):
+    if x.get("k") in ("multiParts",):
+        x = dict(x)
+        x["xs"] = [d if d != "" else "/" for d in (x.get("xs") or [])]
+    if x.get("k") in ("list", "uniqueList", "multiPartsN") and x.get("s", "") == "":
+        x = dict(x)
+        x["s"] = ","
+    return x
+
+
+def _unstore(x):
+    if x.get("k") == "stored":
+        return x["e"]
+    return x
+
+
+ALG_CLASSES = [
+    AlgClass("multiparts_drops_meta", ("C12", "C06"), ("invoke",),
+             lambda x: x.get("k") == "multiParts" and _any_expr(x.get("e"), _makes_meta),
+             _drop_meta_nodes,
+             "MultiParts / ToMultiPartsA builds a fresh Action: messages, usage and no-space set of the wrapped action are dropped (an ActionMessage under MultiParts shows nothing)"),
+    AlgClass("multiparts_empty_divider_panic", ("C11", "C18"), ("invoke",),
+             lambda x: (x.get("k") == "multiParts" and "" in (x.get("xs") or [])) or (x.get("k") == "list" and x.get("s", "") == ""),
+             _fix_empty_divider,
+             "MultiParts(\"\") with an empty typed text: tokenize returns no token and `splitted[len(splittedCV)-1]` panics with index -1"),
+    AlgClass("stored_action_modified_in_place", ("C08",), ("history",),
+             lambda x: x.get("k") == "stored",
+             _unstore,
+             "an Action obtained with Invoke(c).ToA() shares its value slice: Prefix/Suffix/Style applied to it write through, so the second invocation yields `xxa` and the stored action itself changes"),
+]
+
+CLASSES = CLASSES + ALG_CLASSES
 BY_ID = {c.id: c for c in CLASSES}
